@@ -116,7 +116,8 @@ type genOpts struct {
 	allowSpanAllConstrained bool // F6: column-spanning cell over columns that all carry a width
 	allowSpanSlack          bool // F6b: spanned column with a px width, or a percentage and contents with min-content < max-content
 	allowPercentOver100     bool // F7: column percentages summing to more than 100
-	// F8: automatic layout, every column carries a width (px or %)
+	// F8: automatic layout, every column carries a width and (the table width is a percentage
+	// or one of the column widths is a percentage)
 	allowAllConstrainedSpecified bool
 	// F11 (C01 domain): repeated header/footer on short pages together with cells that can be
 	// split between pages (the page loop may never end)
@@ -410,6 +411,11 @@ func (g *genState) table(nested bool, parentFont float64) *tableSpec {
 			gs.Rows = append(gs.Rows, rs)
 		}
 		t.Groups = append(t.Groups, gs)
+	}
+	// one table in six is drawn from the "every column constrained" family (constrained.go):
+	// px table width, a px width on every column, no percentages
+	if r.Intn(6) == 0 {
+		g.constrainAll(t)
 	}
 	g.restrict(t)
 	return t
